@@ -2,6 +2,7 @@ package plugincommon
 
 import (
 	"fmt"
+	"slices"
 	"time"
 
 	"github.com/smartcontractkit/libocr/commontypes"
@@ -22,8 +23,13 @@ func GetTransmissionSchedule(
 	allTheOracles []commontypes.OracleID,
 	transmissionDelayMultiplier time.Duration,
 ) (*ocr3types.TransmissionSchedule, error) {
+	// Callers pass the keys of a map, i.e. in random order. Every oracle must derive the same schedule
+	// for the same report, so iterate in ascending oracle ID order.
+	sortedOracles := slices.Clone(allTheOracles)
+	slices.Sort(sortedOracles)
+
 	transmitters := make([]commontypes.OracleID, 0, len(allTheOracles))
-	for _, oracleID := range allTheOracles {
+	for _, oracleID := range sortedOracles {
 		supportsDestChain, err := chainSupport.SupportsDestChain(oracleID)
 		if err != nil {
 			return nil, fmt.Errorf("supports dest chain %d: %w", oracleID, err)
